@@ -53,6 +53,10 @@ def generate(seed, tier="quick"):
     strikes = [round(x0 * r.uniform(0.8, 1.2), 6) for _ in range(k)]
     payoff = {"kind": r.choice(["call", "put", "forward", "uo_call", "di_put"]) if k == 1 else r.choice(["call", "put"]),
               "strikes": strikes}
+    if sub_rng(seed, "c07.coupon").random() < 0.06:
+        # a payoff that hands out ONE persistent array on every call (a fixed coupon vector): whatever the engine does to
+        # the value it receives must not reach the payoff's own state (own stream: the other draws are unchanged)
+        payoff["kind"] = "coupon"
     if payoff["kind"] in ("uo_call", "di_put"):
         # a path-dependent payoff: it observes the path through Product.underlying_value (knock event on x0 and the spot)
         payoff["barrier"] = round(x0 + (1 if payoff["kind"] == "uo_call" else -1) * scale * r.choice([0.3, 1.0, 2.0]), 6)
@@ -153,6 +157,8 @@ def shrink_candidates(sc):
 # ---- reference payoffs (independent of rpylib.product.payoff) -------------------------------------
 def _ref_payoff(kind, strikes, s, x0=None, barrier=None):
     k = np.asarray(strikes, dtype=float)
+    if kind == "coupon":
+        return k.copy()
     if kind == "uo_call":
         return np.where(max(x0, s) > barrier, 0.0, np.maximum(s - k, 0.0))
     if kind == "di_put":
@@ -172,6 +178,10 @@ def _mk_payoff(kind, strikes, barrier=None):
     from rpylib.product.payoff import Vanilla, PayoffType, Forward
 
     st = strikes[0] if len(strikes) == 1 else list(strikes)
+    if kind == "coupon":
+        from rpylib.product.payoff import FixedCoupon
+
+        return FixedCoupon(coupon=np.array(strikes, dtype=float))
     if kind in ("uo_call", "di_put"):
         from rpylib.product.payoff import Barrier, BarrierType
 
